@@ -153,6 +153,9 @@ pub struct World {
     /// wall-clock jumps: (interaction number, delta ns)
     pub jumps: Vec<(u64, i128)>,
     pub jump_ticks: u64,
+    /// C17: (exchange id, client parser accepts, verifier accepts for this exchange, for another, config at handling)
+    pub mock_answers: Vec<(u64, bool, Option<bool>, Option<bool>, BTreeMap<String, String>)>,
+    pub mock_failures: Vec<String>,
 }
 
 /// virtual time saturates here (~146 years): far-future timers must not overflow the clock
@@ -201,6 +204,8 @@ impl World {
             is_probe: false,
             jumps: Vec::new(),
             jump_ticks: 0,
+            mock_answers: Vec::new(),
+            mock_failures: Vec::new(),
         }
     }
 
@@ -301,6 +306,24 @@ impl World {
             };
             let t = self.vt.saturating_add(d).min(VT_MAX);
             self.push(t, 0, What::Complete(id));
+        }
+        if class == "http" {
+            let mut admin = vec![];
+            self.triggers.retain(|tr| {
+                if tr.class == "__admin" && tr.ordinal == ordinal {
+                    admin.push(tr.client);
+                    false
+                } else {
+                    true
+                }
+            });
+            for k in admin {
+                // the reconfiguration reaches the server while this exchange is in flight:
+                // before or after it, as the latencies decide
+                let d = self.draws.draw(&format!("admin#{k}/delay"), 3);
+                let t = self.vt.saturating_add([0, 20 * MS, 30 * SEC][d as usize]).min(VT_MAX);
+                self.push(t, 0, What::AdminReconfig(k));
+            }
         }
         // release control requests that wait for this kind of operation
         let mut fire = vec![];
